@@ -67,6 +67,10 @@ pub fn main(args: &Args) -> i32 {
                 .prop_map(|(mut p, roll, with_others)| {
                     if roll == 0 {
                         crate::plangen::second_leaf_then_remove_prelude(&mut p, with_others);
+                    } else if roll == 1 {
+                        // a member's request to leave reaches the admin while the admin holds an
+                        // unmerged commit of its own
+                        crate::plangen::leave_meets_pending_commit_prelude(&mut p, with_others);
                     }
                     p
                 })
